@@ -50,9 +50,10 @@ static long ndet(int tier)
 	n += ndims(tier, types[t]);
     return n * 2 * 3 * 4 * NGRID;
 }
+static long ngeq(void);
 static long count(int tier)
 {
-    return ndet(tier) + 8;	/* + one ensemble case per type */
+    return ndet(tier) + 8 + ngeq();	/* + one ensemble case per type */
 }
 
 static vf_errlog elog;
@@ -60,6 +61,7 @@ static vf_errlog elog;
 /* scenario: recipe on the shape; 1x1 gets a fourth reflect so that the
    system is over-determined */
 static int g_net = 2;	/* error-network family member used by scenarios */
+static double g_slope_nf, g_slope_tr;	/* frequency dependence of sigma */
 
 static int make_scenario(cs_scenario *sc, vnacal_type_t type, int rows,
 	int cols, int recipe, int nf)
@@ -119,11 +121,26 @@ static void run_cal(cs_scenario *sc, bool model, int gk, double snf,
 	double fv[8], nfv[8], trv[8];
 	int n;
 	const double *fp;
+	const double f0 = v->f[0], f1 = v->f[v->nf - 1];
 	switch (gk) {
 	case 0: n = 1; fp = NULL; break;
 	case 1: n = v->nf; fp = NULL; break;
 	case 2:
 	    n = 2; fv[0] = 0.9 * v->f[0]; fv[1] = 1.1 * v->f[v->nf - 1];
+	    fp = fv;
+	    break;
+	case 4:
+	    /* as many points as the calibration, same end points, other
+	       interior points */
+	    n = v->nf;
+	    for (int i = 0; i < n; ++i)
+		fv[i] = (i == 0 || i == n - 1) ? v->f[i] :
+		    v->f[i] + 0.3 * (v->f[i + 1] - v->f[i]);
+	    fp = fv;
+	    break;
+	case 5:
+	    n = 3;
+	    fv[0] = f0; fv[1] = f0 + 0.37 * (f1 - f0); fv[2] = f1;
 	    fp = fv;
 	    break;
 	default:
@@ -134,7 +151,14 @@ static void run_cal(cs_scenario *sc, bool model, int gk, double snf,
 	    fp = fv;
 	    break;
 	}
-	for (int i = 0; i < n; ++i) { nfv[i] = snf; trv[i] = str; }
+	for (int i = 0; i < n; ++i) {
+	    /* sigma as a (by default constant) linear function of frequency,
+	       sampled where the grid has its points */
+	    double f = fp != NULL ? fp[i] : v->f[i];
+	    double x = (n > 1 && f1 > f0) ? (f - f0) / (f1 - f0) : 0.0;
+	    nfv[i] = snf * (1.0 + g_slope_nf * x);
+	    trv[i] = str * (1.0 + g_slope_tr * x);
+	}
 	if (vnacal_new_set_m_error(vnp, fp, n, nfv, str > 0 ? trv : NULL)
 		!= 0) {
 	    o->rc = -6;
@@ -438,9 +462,103 @@ static void run_ens(int tier, int t, vf_result *r)
     vf_exec_end(r, mark);
 }
 
+/*
+ * grid equivalence: noise that depends linearly on frequency, declared on
+ * the calibration grid itself (NULL frequency vector) and declared through
+ * samples of the same lines on another grid, is the same noise model (the
+ * interpolation passes through the given points and reproduces a line), so
+ * noisy data must give the same weighted solution.  The ratio of the noise
+ * floor to the tracking part changes with frequency, otherwise the weights
+ * of one frequency would only change by a common factor.
+ */
+#define NGEQ_KIND 4
+static const int geq_kind[NGEQ_KIND] = { 2, 3, 4, 5 };
+static long ngeq(void) { return 8 * 2 * NGEQ_KIND; }
+
+static void run_geq(long idx, vf_result *r)
+{
+    static cs_scenario sc;
+    static res_t plain, direct, grid;
+    int gk = geq_kind[vf_digit(&idx, NGEQ_KIND)];
+    int d = vf_digit(&idx, 2);
+    int t = (int)idx;
+    int rows = dimlist[d][0], cols = dimlist[d][1];
+    if (!is_t(types[t])) { int x = rows; rows = cols; cols = x; }
+    const int P = rows > cols ? rows : cols;
+    const char *tname = vnacal_type_to_name(types[t]);
+    const int nf = 4;
+    char sig[160];
+
+    vf_desc(r, "%s %dx%d grid equivalence: sigma_nf rising 3x and sigma_tr "
+	    "falling 2x over the band, declared on the calibration grid and "
+	    "on noise grid kind %d (2: two points outside, 3: five points, "
+	    "4: same length and span with other interior points, 5: three "
+	    "points), noisy data", tname, rows, cols, gk);
+    unsigned long mark = vf_exec_begin();
+    {
+	int found = 0;
+	for (int recipe = 0; recipe < 2 && !found; ++recipe) {
+	    long double margin; int eqs, unk;
+	    if (make_scenario(&sc, types[t], rows, cols, recipe, nf) != 0)
+		continue;
+	    if (cs_identifiable(&sc, (1u << sc.nstd) - 1u, &margin, &eqs,
+			&unk) && margin >= 1e-4L && eqs > unk)
+		found = 1;
+	}
+	if (!found) {
+	    vf_outcome(r, "skipped: not over-determined/determining");
+	    goto done;
+	}
+    }
+    sc.noise = 2e-3;
+    run_cal(&sc, false, 0, 0, 0, false, 0, &plain, r);
+    g_slope_nf = 2.0;
+    g_slope_tr = -0.5;
+    run_cal(&sc, true, 1, 1e-3, 3e-2, false, 1e-12, &direct, r);
+    run_cal(&sc, true, gk, 1e-3, 3e-2, false, 1e-12, &grid, r);
+    g_slope_nf = g_slope_tr = 0.0;
+    if (plain.rc != 0 || !plain.applied || direct.rc != 0 ||
+	    !direct.applied) {
+	snprintf(sig, sizeof(sig), "geq-reference-failed:%s", tname);
+	vf_fail(r, sig, "reference runs failed: unweighted rc %d %s, "
+		"weighted on the calibration grid rc %d errno %d %s",
+		plain.rc, plain.msg, direct.rc, direct.err_no, direct.msg);
+	goto done;
+    }
+    if (grid.rc != 0 || !grid.applied) {
+	snprintf(sig, sizeof(sig), "geq-grid-failed:%s", tname);
+	vf_fail(r, sig, "the same noise model declared on its own grid "
+		"(kind %d): rc %d errno %d %s", gk, grid.rc, grid.err_no,
+		grid.msg);
+	goto done;
+    }
+    double effect = sdiff(&plain, &direct, nf, P);
+    double dd = sdiff(&direct, &grid, nf, P);
+    vf_note("weights move the result by %.3e, grids differ by %.3e", effect,
+	    dd);
+    if (!(dd <= 1e-8 + 1e-4 * effect)) {
+	snprintf(sig, sizeof(sig), "geq-differs:%s:kind%d", tname, gk);
+	vf_fail(r, sig, "the same linear noise model declared on the "
+		"calibration grid and on noise grid kind %d gives corrected "
+		"S-parameters differing by %.3e (the weights as a whole move "
+		"the result by %.3e)", gk, dd, effect);
+	goto done;
+    }
+    r->nontrivial = effect > 1e-6;
+    vf_outcome(r, "geq %s kind %d %s", tname, gk, effect > 1e-6 ?
+	    "weights-matter" : "weights-idle");
+done:
+    g_slope_nf = g_slope_tr = 0.0;
+    vf_exec_end(r, mark);
+}
+
 static void run(int tier, long idx, vf_result *r)
 {
     long nd = ndet(tier);
+    if (idx >= nd + 8) {
+	run_geq(idx - nd - 8, r);
+	return;
+    }
     if (idx < nd)
 	run_det(tier, idx, r);
     else
@@ -454,7 +572,10 @@ vf_driver vf_drv = {
 	"model and every standard displaced by 100 sigma in turn; plus one "
 	"ensemble case per type running a declared fixed ensemble of "
 	"Gaussian realisations (12 scenarios x 64/128) whose rejection rate "
-	"at significance 0.05 must lie in [0.5 %, 25 %]; non-trivial when "
+	"at significance 0.05 must lie in [0.5 %, 25 %]; plus grid-"
+	"equivalence cases (type x shape x 4 noise-grid kinds) comparing "
+	"a frequency-dependent noise model declared on the calibration grid "
+	"with the same model declared on another grid; non-trivial when "
 	"the scenario is over-determined and determining; the ensemble "
 	"clause is enumerated, not decided (a probability cannot be)",
     .count = count,
